@@ -113,7 +113,7 @@ def fn_call(case):
         viols.append(("ctor:attrs", "constructed attributes differ from the model (order, value or str/HTML type)",
                       {"observed": got, "expected": exp}))
     kids = [a for a in args if not isinstance(a, dict)]
-    if [type(c).__name__ for c in t.children] != ["str"] + ["str", "Tag"][:len(dicts)]:
+    if [type(c).__name__ for c in t.children] != ["str"] + ["str" if i == 0 else "Tag" for i in range(len(dicts))]:
         viols.append(("ctor:children", "dict arguments leaked into / removed children",
                       {"observed": [type(c).__name__ for c in t.children]}))
     # consolidate_attrs
